@@ -281,6 +281,9 @@ func streamEngine(seed uint64, n int, driver, corpus, dump, variant string) (*Su
 	if variant == "api" {
 		likeProbe(sum)
 	}
+	if variant == "api" || variant == "" {
+		structInputProbe(sum)
+	}
 	models, err := runDriver(driver, lines)
 	if err != nil {
 		return nil, err
